@@ -2,7 +2,7 @@
 //! that the sweep of tools/props/C12.py covers every built-in the current tree has.
 //! Output: one JSON line {"filters":[..],"tests":[..],"globals":[..]}.
 //!
-//! `c12 fmt`: JSON lines {"src":..,"ctx":..,"undefined":..} rendered by an environment with a
+//! `c12 fmt`: JSON lines {"src":.. | "templates":{name: source, "main": ..},"ctx":..,"undefined":..} rendered by an environment with a
 //! CUSTOM formatter (wrapping escape_formatter), so that every print goes through
 //! `Environment::format` instead of the fast path of `Instruction::Emit`; answers
 //! {"ok":text} | {"err":kind code} | {"panic":true}.
@@ -53,9 +53,23 @@ fn render_with_formatter(req: &J) -> J {
         "chainable" => UndefinedBehavior::Chainable,
         _ => UndefinedBehavior::Lenient,
     });
-    let src = req.get("src").and_then(|x| x.as_str()).unwrap_or("").to_string();
     let ctx = minijinja::Value::from(minijinja::value::Serde(req.get("ctx").cloned().unwrap_or(J::Null)));
-    match env.render_str(&src, ctx) {
+    let r = if let Some(ts) = req.get("templates").and_then(|x| x.as_object()) {
+        // several templates (extends / include / import): render "main"
+        for (name, src) in ts {
+            if env.add_template_owned(name.clone(), src.as_str().unwrap_or("").to_string()).is_err() {
+                return json!({"load_errors": true});
+            }
+        }
+        match env.get_template("main") {
+            Ok(t) => t.render(ctx),
+            Err(e) => Err(e),
+        }
+    } else {
+        let src = req.get("src").and_then(|x| x.as_str()).unwrap_or("").to_string();
+        env.render_str(&src, ctx)
+    };
+    match r {
         Ok(s) => json!({"ok": s}),
         Err(e) => json!({"err": mjverif::err_code(e.kind())}),
     }
